@@ -893,8 +893,8 @@ pub fn total(tier: Tier) -> u64 {
     let core = CORE.len() as u64;
     let nest = all_nestings().len() as u64;
     match tier {
-        Tier::Quick => a + a * a + core * core * core + nest + 6000,
-        Tier::Thorough => a + a * a + a * a * a + core.pow(4) + nest + 150_000,
+        Tier::Quick => a + a * a + core * core * core + nest + core * core * 3 + 6000,
+        Tier::Thorough => a + a * a + a * a * a + core.pow(4) + nest + core * core * 3 + 150_000,
     }
 }
 
@@ -951,6 +951,22 @@ pub fn gen_case(tier: Tier, seed: u64, idx: u64) -> Case {
     if (i as usize) < nest.len() {
         // every (outer, k, inner) nesting, followed by a sharing call that would notice leftovers
         return single(vec![nest[i as usize].clone(), Call::RcShare, Call::MissingNull]);
+    }
+    i -= nest.len() as u64;
+    // two client threads, every pair of core calls, three fixed hand-over patterns: strict alternation at
+    // every interception point, thread 1 first at every point, and alternation in blocks of three
+    if i < core * core * 3 {
+        let a = CORE[(i / (core * 3)) as usize].clone();
+        let b = CORE[((i / 3) % core) as usize].clone();
+        let decisions: Vec<usize> = match i % 3 {
+            0 => (0..400).map(|k| k % 2).collect(),
+            1 => vec![1; 400],
+            _ => (0..400).map(|k| (k / 3) % 2).collect(),
+        };
+        return Case::C15(HistoryCase {
+            threads: vec![vec![a.clone(), b.clone()], vec![b, a]],
+            decisions,
+        });
     }
     // random: longer single-thread histories and 2..3 client threads
     let nthreads = *rng.pick(&[1usize, 2, 2, 3]);
